@@ -3,7 +3,7 @@
    The tie to the code is the conformance monitor: vote traces of real participants are replayed against
    `conforms`, which is proved to imply reachability in this transition system. *)
 From Coq Require Import ZArith List Bool.
-From F3 Require Import Spec SpecProofs.
+From F3 Require Import GoInt QuorumGen QuorumProofs Spec SpecProofs.
 Import ListNotations.
 Open Scope Z_scope.
 
@@ -33,6 +33,13 @@ Theorem c01_conforming_trace_safe : forall (power : nat -> Z) (committee : list 
     decides power committee honest (rev trace) v -> decides power committee honest (rev trace) w -> v = w.
 Proof. intros power committee honest input Hp Hn Hb. exact (conforming_trace_safe power Hp committee Hn honest input Hb). Qed.
 Print Assumptions c01_conforming_trace_safe.
+
+(* the quorum predicate of Layer S (3 * power >= 2 * total) IS the code's IsStrongQuorum: the GENERATED predicate (re-translated
+   from gpbft/gpbft.go on every run) is proved equal to it over the whole scaled-power domain *)
+Theorem c01_quorum_predicate_is_the_code : forall part whole, 0 <= whole < QuorumProofs.two62 ->
+  QuorumGen.isStrongQuorum part whole = true <-> 3 * part >= 2 * whole.
+Proof. exact QuorumProofs.strong_iff. Qed.
+Print Assumptions c01_quorum_predicate_is_the_code.
 
 (* non-vacuity: a reachable execution with an equivocating Byzantine participant and a decision *)
 Example c01_example :
